@@ -159,7 +159,11 @@ def PackInfo.decode (bs : Bytes) : Outcome PackInfo :=
     | none => .err .format
     | some kind =>
       let l := (bs.getD 38 0).toNat
-      if l > Consts.locationSkip then .panic "pack_info.rs: 213 - len underflow"
+      -- a length byte beyond the field: `PString::parse` asks the 252-byte block parser for more bytes than
+      -- are left and gets a format error; the subtraction `213 - len` is never reached (the first version of
+      -- the model had a panic here; the translation of `PackInfo::parse` showed it unreachable, and the real
+      -- reader answers a format error on a crafted block with a valid CRC)
+      if l > Consts.locationSkip then .err .format
       else .ok {
         uuid := slice bs 0 16, packSize := leNat (slice bs 16 8),
         checkInfoPos := sizedOffsetDecode (slice bs 24 8), packId := leNat (slice bs 32 2),
